@@ -1,6 +1,7 @@
 import ScrutModel.Model.Namer
 import Driver.Util
-/-! `namer <existing> <requests>`: comma-separated hex names (`-` = none). -/
+/-! `namer <existing> <requests> [case=<tag>]`: comma-separated hex names (`-` = none); the optional tag names the
+end-to-end scenario of the harness that carries this operation and is ignored here. -/
 open Scrut Scrut.Namer
 namespace Driver
 
@@ -9,6 +10,9 @@ def parseNames (s : String) : Option (List Name) :=
   (s.splitOn ",").mapM (fun h => (unhex h).map (fun bs => (String.fromUTF8! (ByteArray.mk bs.toArray)).toList))
 
 def opNamer (args : List String) : String :=
+  let args := match args with
+    | [ex, reqs, tag] => if tag.startsWith "case=" then [ex, reqs] else args
+    | _ => args
   match args with
   | [ex, reqs] =>
     match parseNames ex, parseNames reqs with
